@@ -35,6 +35,25 @@ def gen_and_replay(v, wd, ex, bind, pid, tier, rnd, scn, views, nrand, walk, dep
     return res, st
 
 
+CONFIG_VARIANTS = ("ndebug", "uchar")
+
+def replay_configs(v, wd, bind, vectors, pid, tier, rnd, publen=False, limit=None, readback=False):
+    """The same TLC transitions through other build configurations of the library (release build with assert() compiled out,
+    ABI with unsigned plain char): the specification has no configuration parameter, so every build must follow it."""
+    import concurrent.futures as cf
+    if limit and len(vectors) > limit:
+        vectors = random.Random(7).sample(vectors, limit)
+    with cf.ThreadPoolExecutor(max_workers=2) as pool:
+        exes = list(pool.map(lambda x: build_exec(wd, x), CONFIG_VARIANTS))
+    n = 0
+    for name, exe in zip(CONFIG_VARIANTS, exes):
+        st = pdu.replay(v, Executor(exe, wd), bind, vectors, pid, tier, rnd, publen=publen, places=[("E", 0)], tag="[build %s] " % name, readback=readback)
+        n += st["executed"]
+    v.cov["evaluations"] += n
+    v.cov.setdefault("build_configurations", ["default -O2"] + ["%s %s" % (VARIANTS[x][0], " ".join(VARIANTS[x][1])) for x in CONFIG_VARIANTS])
+    return n
+
+
 def traces(v, wd, ex, bind, pid, rnd, n, views, ops, nshards=8, name="random-calls"):
     layout = pdu.field_widths(wd)
     cmds, evs = pdu.drive_independent(rnd, bind, layout, n, views, ops)
@@ -74,7 +93,8 @@ def c01(v, tier, seed):
     wd, ex, bind = setup(v)
     v.cov["api_audit"] = api_audit(wd)
     q = tier == "quick"
-    gen_and_replay(v, wd, ex, bind, "C01", tier, rnd, "get", ALL_VIEWS, 2 if q else 24, True, props=["ReadOnlyOps"])
+    res0, _ = gen_and_replay(v, wd, ex, bind, "C01", tier, rnd, "get", ALL_VIEWS, 2 if q else 24, True, props=["ReadOnlyOps"])
+    replay_configs(v, wd, bind, res0.emitted, "C01", tier, rnd, limit=30000 if q else None)
     # values that collide with in-band error codes (2^w - errno) read back through every path
     gen_and_replay(v, wd, ex, bind, "C01", tier, rnd, "sentinel", ALL_VIEWS, 0, False, props=["ReadOnlyOps"])
     # every descriptor shape the generic reader accepts (start quadlet x bit offset 0..31 x width 0..64), not only those of named fields
@@ -100,8 +120,9 @@ def c02(v, tier, seed):
     rnd = random.Random(seed)
     wd, ex, bind = setup(v)
     q = tier == "quick"
-    gen_and_replay(v, wd, ex, bind, "C02", tier, rnd, "set", ALL_VIEWS, 1 if q else 12, False,
+    res0, _ = gen_and_replay(v, wd, ex, bind, "C02", tier, rnd, "set", ALL_VIEWS, 1 if q else 12, False,
                    props=["FrameOK", "OthersKept"], invs=["ReadBack"], readback=True)
+    replay_configs(v, wd, bind, res0.emitted, "C02", tier, rnd, limit=30000 if q else None, readback=True)
     # prior contents related to the write's own result (one bit away from it, quadlet byte-reversed): "already in place" short cuts
     gen_and_replay(v, wd, ex, bind, "C02", tier, rnd, "nearset", ALL_VIEWS, 0, False,
                    props=["FrameOK", "OthersKept"], invs=["ReadBack"], readback=True)
@@ -185,6 +206,7 @@ def c03(v, tier, seed):
     v.sample({"tlc_transition": exact[len(exact) // 2]})
     # the same transitions on exact-size heap objects under AddressSanitizer (header at offset 0 and 4 of the allocation): a guard page
     # only sees an access that crosses a page; ASan's red zone sees the first byte behind the object at any alignment, reads included
+    replay_configs(v, wd, bind, exact, "C03", tier, rnd, publen=True)
     st, sites = asan_heap_sweep(v, wd, bind, exact, "C03", tier, rnd)
     v.cov["evaluations"] += st["executed"]; v.cov["asan_heap_executions"] = st["executed"]
     v.cov["rule"] = ("facts (published length, sizeof, payload offset per view) validated by FactsTrace; every Get/Set/Init/payload transition "
@@ -222,8 +244,9 @@ def c04(v, tier, seed):
     rnd = random.Random(seed)
     wd, ex, bind = setup(v)
     q = tier == "quick"
-    gen_and_replay(v, wd, ex, bind, "C04", tier, rnd, "init", ALL_VIEWS, 4 if q else 40, False, depth=2,
+    res0, _ = gen_and_replay(v, wd, ex, bind, "C04", tier, rnd, "init", ALL_VIEWS, 4 if q else 40, False, depth=2,
                    invs=["InitCanonical"], props=["FrameOK"])
+    replay_configs(v, wd, bind, res0.emitted, "C04", tier, rnd)
     # prior contents one bit away from an initialised header / canonical prefix followed by junk: "already initialised" short cuts
     gen_and_replay(v, wd, ex, bind, "C04", tier, rnd, "nearinit", ALL_VIEWS, 0, False, depth=1 if q else 2,
                    invs=["InitCanonical"], props=["FrameOK"])
@@ -281,7 +304,12 @@ def c11(v, tier, seed):
     rnd = random.Random(seed)
     wd, ex, bind = setup(v)
     q = tier == "quick"
-    gen_and_replay(v, wd, ex, bind, "C11", tier, rnd, "bad", ALL_VIEWS, 0 if q else 3, False, props=["ReadOnlyOps", "FrameOK"])
+    res0, _ = gen_and_replay(v, wd, ex, bind, "C11", tier, rnd, "bad", ALL_VIEWS, 0 if q else 3, False, props=["ReadOnlyOps", "FrameOK"])
+    replay_configs(v, wd, bind, res0.emitted, "C11", tier, rnd, limit=30000 if q else None)
+    # a rejected call writes nothing - not even the bytes that are already there: every rejected call with a valid PDU again, on read-only memory
+    ro = [x for x in res0.emitted if not x["op"].startswith("null")]
+    st = pdu.replay(v, ex, bind, ro, "C11", tier, rnd, places=[("R", 0)], tag="[read-only PDU] ")
+    v.cov["evaluations"] += st["executed"]
     # valid arguments through the deprecated entry points return success (and the right bytes)
     gen_and_replay(v, wd, ex, bind, "C11", tier, rnd, "pairs", LEGACY_VIEWS, 0, False, depth=1, name="GenPdu/valid-legacy")
     v.cov["rule"] = ("null PDU x every field x every path, out-of-range identifiers {MAX, MAX+1, 255, 256, 256+k for every valid k, 65536, 2^31-1} "
@@ -296,7 +324,8 @@ def c12(v, tier, seed):
     q = tier == "quick"
     facts(v, wd, bind, "C12", ("legacy",))
     for scn, nr, walk in (("get", 2, True), ("set", 1, False), ("init", 4, False)):
-        gen_and_replay(v, wd, ex, bind, "C12", tier, rnd, scn, LEGACY_VIEWS, nr if q else nr * 6, walk, readback=(scn == "set"))
+        res0, _ = gen_and_replay(v, wd, ex, bind, "C12", tier, rnd, scn, LEGACY_VIEWS, nr if q else nr * 6, walk, readback=(scn == "set"))
+        replay_configs(v, wd, bind, res0.emitted, "C12", tier, rnd, limit=15000 if q else None)
     # in-band error values (2^w - errno), near-valid prior contents: where a wrapper's error convention or short cut could differ from the current API
     for scn in ("sentinel", "nearset", "nearinit"):
         gen_and_replay(v, wd, ex, bind, "C12", tier, rnd, scn, LEGACY_VIEWS, 0, False, readback=(scn == "nearset"))
@@ -318,7 +347,8 @@ def c17(v, tier, seed):
              ["ViewsAgree"], name="GenHist/views")
     # a shared field written through each view's own entry points on prior contents one bit away from the result (every view
     # is compared with the one specification of the shared field, so equal verdicts mean the views agree)
-    gen_and_replay(v, wd, ex, bind, "C17", tier, rnd, "nearshared", ALL_VIEWS, 0, False, props=["FrameOK"], readback=True)
+    res0, _ = gen_and_replay(v, wd, ex, bind, "C17", tier, rnd, "nearshared", ALL_VIEWS, 0, False, props=["FrameOK"], readback=True)
+    replay_configs(v, wd, bind, res0.emitted, "C17", tier, rnd, limit=20000 if q else None, readback=True)
     v.cov["rule"] = ("for every group of views sharing fields: every ordered pair (A,B) of views x shared field x values x images: write through A, "
                      "read through B on the same buffer; SharedWellFormed checked as an ASSUME")
     v.cov["distinct_nontrivial"] = v.cov.get("histories_replayed", 0)
@@ -547,12 +577,13 @@ def c13(v, tier, seed):
 
 
 ALL_OFFS = list(range(32))
+BIG_QS = [7, 62, 63, 64, 65, 127, 128, 200, 253, 254, 255]
 ALL_WS = list(range(65))
 
 def shape_sweep(v, wd, ex, pid, rnd, q, tag, memhost="LE", branch="LE", ops=None):
     import hostx
     ws = [0, 1, 2, 7, 8, 9, 15, 16, 17, 24, 29, 31, 32, 33, 40, 48, 63, 64] if q else ALL_WS
-    res = run_tlc("GenImpl", hostx.impl_cfg([0, 1], ALL_OFFS, ws, memhost, branch), wd)
+    res = run_tlc("GenImpl", hostx.impl_cfg([0, 1], ALL_OFFS, ws, memhost, branch, bigqs=BIG_QS), wd)
     v.add_tlc("GenImpl/shapes %s/%s" % (memhost, branch), res)
     if not res.ok: raise Infra("GenericImpl violates T7:\n" + (res.violation or "")[-1200:])
     vecs = [x for x in res.emitted if ops is None or x["op"] in ops]
@@ -866,7 +897,8 @@ def capacity_lens(tscf, udp, fd, target):
 def tunnel_key(ev_scn, stage):
     fs = ev_scn["frames"]
     feats = []
-    if len(fs) > 8: feats.append("full-size-packet")
+    if len(fs) > 100: feats.append("long-run")
+    elif len(fs) > 8: feats.append("full-size-packet")
     if any(f["rtr"] for f in fs): feats.append("rtr")
     if any(f["esi"] for f in fs): feats.append("esi")
     if any(f["eff"] and from64([0] * 4 + f["id"]) <= 0x7FF for f in fs): feats.append("eff-with-11bit-id")
@@ -890,13 +922,25 @@ def c19(v, tier, seed):
                 for target in ((1500, 1496) if q else (1500, 1496, 1492, 1480)):
                     cl = capacity_lens(t, u, f, target)
                     caps[(t, u, f, len(cl) + 1000 * (1500 - target))] = cl
-    modes += list(caps)
+    # long runs of one talker process: 300 (thorough: 1100) packets of constant size, so that the 8-bit sequence number wraps
+    soaks = {}
+    for t in (0, 1):
+        for u in (0, 1):
+            for f in (0, 1):
+                soaks[(t, u, f, 90001 + (0 if q else 1))] = [8, 8, 8] if not f else [12, 12]
+    modes += list(caps) + list(soaks)
     total = 0
     shard_jobs = []
     import concurrent.futures as cf, threading
     lock = threading.Lock()
     def run_mode(mode):
         (tscf, udp, fd, count) = mode
+        if mode in soaks:
+            npk = 300 if q else 1100
+            res = run_tlc("GenTunnel", tunnel_cfg(tscf, udp, fd, 1, npackets=npk, lens=[0], caplens=soaks[mode]), wd, workers=1, heap="3g")
+            with lock: v.add_tlc("GenTunnel tscf=%d udp=%d fd=%d run of %d packets" % (tscf, udp, fd, npk), res)
+            if not res.ok: raise Infra("CanTunnel reference machine not transparent:\n" + (res.violation or "")[-1200:])
+            return run_scenarios((tscf, udp, fd, 1), res.emitted, " run=%d" % npk)
         if mode in caps:
             count = count % 1000
             res = run_tlc("GenTunnel", tunnel_cfg(tscf, udp, fd, count, npackets=1, lens=[0], caplens=caps[mode]), wd, workers=1, heap="3g")
